@@ -49,6 +49,31 @@ pub fn c12a_next(i: &mut In, p: &[i64]) {
   witness!(n == 0, "zero step");
 }
 
+/// 12.a'  the same on the reference calendar instead of a ghost: SolarDay::next is the small-step closed form
+/// (refcal::near, lemma 14.L), so the date of the result must be the date td days from the start, td being the day
+/// carry of the clock arithmetic.  Catches shortcuts that bypass SolarDay::next (e.g. day + td inside a month with
+/// missing days).  p = [nmax (seconds, < 45 days), ylo, yhi]
+pub fn c12a_next_cal(i: &mut In, p: &[i64]) {
+  let d = draw_date(i, p[1], p[2]);
+  let t = draw_hms(i);
+  let n = i.int(-p[0], p[0]);
+  // td = floor((secs(t) + n) / 86400), stated multiplicatively
+  let td = i.int(-46, 46);
+  let rest = secs(t) + n - td * 86400;
+  i.assume(0 <= rest && rest < 86400);
+  let x = st(d, t);
+  let u = x.next(n as isize);
+  match near(d.0, d.1, d.2, td) {
+    Some(z) => {
+      assert!(date_of(&u) == z);
+      assert!(secs(hms_of(&u)) == rest);
+    }
+    None => {}
+  }
+  witness!(d == (1582, 10, 4) && td == 1, "across the 1582 gap");
+  witness!(td == -1 && d.2 == 1, "back into the previous month");
+}
+
 /// 12.b  a.subtract(b) = 86400 * (day count difference) + clock difference (ghost day count, see 01.f2).  p = []
 pub fn c12b_subtract(i: &mut In, _p: &[i64]) {
   let da = draw_date(i, 1, 9999);
@@ -124,6 +149,7 @@ pub fn registry() -> Vec<(&'static str, Body)> {
   vec![
     ("c12::c12_accept", c12_accept as Body),
     ("c12::c12a_next", c12a_next),
+    ("c12::c12a_next_cal", c12a_next_cal),
     ("c12::c12b_subtract", c12b_subtract),
     ("c12::c12c_order", c12c_order),
     ("c12::c12d_frac", c12d_frac),
